@@ -14,7 +14,7 @@ namespace viewsim {
 template <bool OK> struct Gate { template <class F, class X> static void run(F &&f, X &x) { f(x); } };
 template <> struct Gate<false> { template <class F, class X> static void run(F &&, X &) {} };
 
-enum Kind : uint32_t { K_DYN_WRITE = 0, K_ELEM_WRITE = 1, K_DYN_ALIAS = 2, K_H_CREATE = 3, K_H_NOALIAS = 4, K_H_ASSIGN = 5, K_IDX_ALIAS = 6, K_MASK_ALIAS = 7, K_DIAG = 8, K_BAD_ELEM = 9, K_FIX_BASE = 16 };
+enum Kind : uint32_t { K_DYN_WRITE = 0, K_ELEM_WRITE = 1, K_DYN_ALIAS = 2, K_H_CREATE = 3, K_H_NOALIAS = 4, K_H_ASSIGN = 5, K_IDX_ALIAS = 6, K_MASK_ALIAS = 7, K_DIAG = 8, K_BAD_ELEM = 9, K_BOOL_WRITE = 10, K_FIX_BASE = 16 };
 enum { NHANDLES = 3 };
 
 template <class T, size_t... D> struct Uni;
@@ -123,6 +123,14 @@ template <class T, size_t... D> struct Uni : UniverseBase {
     static constexpr bool DYN_EXPR_OK = true;
 #endif
     using View = TensorViewExpr<Par, (size_t)R>;
+    // Tensor<bool> destinations assigned from comparison / logical expressions: the views have a separate is_boolean_expression branch, which
+    // exists for rank-1/2 views only and (for dynamic 2-D views) does not compile under FASTOR_USE_VECTORISED_EXPR_ASSIGN on the pinned tree
+#if defined(FASTOR_USE_VECTORISED_EXPR_ASSIGN) || VIEWSIM_MAP_PARENT
+    static constexpr bool BOOL_OK = false;
+#else
+    static constexpr bool BOOL_OK = R <= 2;
+#endif
+    using BTen = Tensor<bool, D...>; BTen *G = nullptr; std::vector<unsigned char> sG, expG;
     static constexpr int LANES = (int)Ten::simd_vector_type::Size;
     using SelT = Sel<R>;
 
@@ -166,6 +174,8 @@ template <class T, size_t... D> struct Uni : UniverseBase {
 #else
         A = new (pa) Ten;
 #endif
+        { uint8_t *pg = g_arena.place(3, sizeof(BTen), alignof(BTen), sideA, 0, true); memset(pg, 0, sizeof(BTen)); G = new (pg) BTen;
+          sG.resize(SZ); expG.resize(SZ); for (int i = 0; i < SZ; ++i) { sG[i] = (unsigned char)(mix2(dataseed * 11u + 5, (uint64_t)i) & 1); G->data()[i] = sG[i] != 0; } }
         B = new (pb) Ten; C = new (pc) Ten; F = new (pf) Flat;
         for (int i = 0; i < SZ; ++i) { sF[i] = pow2val<T>(mix2(dataseed * 7u + 3, (uint64_t)i)); F->data()[i] = sF[i]; }
         refill_A(0, false);
@@ -277,7 +287,7 @@ template <class T, size_t... D> struct Uni : UniverseBase {
                 cx.v->set(cx.si, k, cx.opname, "%s: %s selected element %d of A: got %.17g expected %.17g", cx.opname, what, bad_in, (double)A->data()[bad_in], (double)expA[bad_in]); }
             return false;
         }
-        if (memcmp(B->data(), sB.data(), sizeof(T) * SZ) != 0 || memcmp(C->data(), sC.data(), sizeof(T) * SZ) != 0 || memcmp(F->data(), sF.data(), sizeof(T) * SZ) != 0) {
+        if (memcmp(B->data(), sB.data(), sizeof(T) * SZ) != 0 || memcmp(C->data(), sC.data(), sizeof(T) * SZ) != 0 || memcmp(F->data(), sF.data(), sizeof(T) * SZ) != 0 || memcmp(G->data(), sG.data(), (size_t)SZ) != 0) {
             snprintf(k, sizeof k, "stray-write/%s", family); cx.v->set(cx.si, k, cx.opname, "%s: %s modified another tensor", cx.opname, what); return false; }
         for (int s = 0; s < 4; ++s) { long off = g_arena.check_poison(s); if (off >= 0) { snprintf(k, sizeof k, "poison/%s", family);
                 cx.v->set(cx.si, k, cx.opname, "%s: %s overwrote byte %ld of slot %d outside every tensor", cx.opname, what, off, s); return false; } }
@@ -355,6 +365,62 @@ template <class T, size_t... D> struct Uni : UniverseBase {
         finish(cx, o, "dyn_write", &d, cx.info->desc);
     }
 
+    // ---------------------------------------------------------------- K_BOOL_WRITE (C05): G(slice) = comparison / logical expression, G a Tensor<bool>
+    // judge G byte for byte (a bool is one byte holding 0 or 1), then everything else through finish() with A expected unchanged
+    bool bool_finish(StepCtx &cx, const Outcome &o, const char *family, const Sel<R> &d, const char *what) {
+        char k[96];
+        if (o.kind == 0) {
+            cx.h->bytes(G->data(), (size_t)SZ);
+            const unsigned char *g = reinterpret_cast<const unsigned char *>(G->data());
+            if (memcmp(g, expG.data(), (size_t)SZ) != 0) {
+                static std::vector<char> insel; insel.assign(SZ, 0); for (int q = 0, n = d.size(); q < n; ++q) insel[d.at(dims, q)] = 1;
+                int bad_in = -1, bad_out = -1; for (int i = 0; i < SZ; ++i) if (g[i] != expG[i]) { if (insel[i]) { if (bad_in < 0) bad_in = i; } else if (bad_out < 0) bad_out = i; }
+                if (bad_out >= 0) { snprintf(k, sizeof k, "frame/%s", family); cx.v->set(cx.si, k, cx.opname, "%s: %s changed NON-selected element %d of G: got %d expected %d", cx.opname, what, bad_out, (int)g[bad_out], (int)expG[bad_out]); }
+                else { snprintf(k, sizeof k, "value/%s", family); cx.v->set(cx.si, k, cx.opname, "%s: %s selected element %d of G: got %d expected %d", cx.opname, what, bad_in, (int)g[bad_in], (int)expG[bad_in]); }
+                return false;
+            }
+        }
+        expA = sA; std::vector<unsigned char> old = sG; sG = expG;
+        if (!finish(cx, o, family, nullptr, what)) { sG = old; return false; }
+        return true;
+    }
+    static bool cmp_model(uint32_t ck, T x, T y, T sc) {
+        switch (ck) { case 0: return x < y; case 1: return x >= sc; case 2: return x == y; case 3: return !(x < y); case 4: return (x < y) && (x > sc); default: return x != y; }
+    }
+    void bool_write(const Step &st, StepCtx &cx) {
+        uint32_t ck = st.a[A_RHS] % 6; int form = (int)(st.a[A_FORM] % MkView<R>::NFORMS);
+        Sel<R> d; decode_sel(st, A_D0, 9, d);
+        seq q[4] = {seq(0, 1), seq(0, 1), seq(0, 1), seq(0, 1)}; int fixi[4] = {0, 0, 0, 0};
+        build_args(d, form, st.a[A_X], q, fixi);
+        Sel<R> s1, s2; decode_src(st, A_S0, d, s1, 1); decode_src(st, A_S0, d, s2, 2); maybe_reverse(st, s1, 1);
+        seq q1[4] = {seq(0, 1), seq(0, 1), seq(0, 1), seq(0, 1)}, q2[4] = {seq(0, 1), seq(0, 1), seq(0, 1), seq(0, 1)}; for (int k = 0; k < R; ++k) { q1[k] = seq(s1.f[k], s1.l[k], s1.s[k]); q2[k] = seq(s2.f[k], s2.l[k], s2.s[k]); }
+        T sc = smallval<T>(st.a[A_VAL]);
+        // B holds +-powers of two, C small integers: make equality reachable by comparing C against C as well
+        const std::vector<T> &X = (st.a[A_VAL] & 16) ? sC : sB;
+        expG = sG; bool changed = false;
+        for (int qi = 0, n = d.size(); qi < n; ++qi) { int di = d.at(dims, qi); expG[di] = cmp_model(ck, X[s1.at(dims, qi)], sC[s2.at(dims, qi)], sc) ? 1 : 0; if (expG[di] != sG[di]) changed = true; }
+        Ten &xb = (st.a[A_VAL] & 16) ? *C : *B; Ten &c = *C; BTen &g = *G; Outcome o;
+        Gate<BOOL_OK>::run([&](auto &gg) {
+            o = window([&] {
+                switch (ck) {
+                case 0: MkView<R>::mk(gg, q, fixi, form) = MkView<R>::mk(xb, q1, fixi, 0) < MkView<R>::mk(c, q2, fixi, 0); break;
+                case 1: MkView<R>::mk(gg, q, fixi, form) = MkView<R>::mk(xb, q1, fixi, 0) >= sc; break;
+                case 2: MkView<R>::mk(gg, q, fixi, form) = MkView<R>::mk(xb, q1, fixi, 0) == MkView<R>::mk(c, q2, fixi, 0); break;
+                case 3: MkView<R>::mk(gg, q, fixi, form) = !(MkView<R>::mk(xb, q1, fixi, 0) < MkView<R>::mk(c, q2, fixi, 0)); break;
+                case 4: MkView<R>::mk(gg, q, fixi, form) = (MkView<R>::mk(xb, q1, fixi, 0) < MkView<R>::mk(c, q2, fixi, 0)) && (MkView<R>::mk(xb, q1, fixi, 0) > sc); break;
+                default: MkView<R>::mk(gg, q, fixi, form) = MkView<R>::mk(xb, q1, fixi, 0) != MkView<R>::mk(c, q2, fixi, 0); break;
+                }
+            }, failalloc);
+        }, g);
+        if (!BOOL_OK) expG = sG;
+        char sd[80]; describe_sel(sd, sizeof sd, d);
+        snprintf(cx.info->desc, sizeof cx.info->desc, "G(%s) form%d = cmp%u(%s(..), C(..))%s", sd, form, ck, (st.a[A_VAL] & 16) ? "C" : "B", BOOL_OK ? "" : " (no-op: form does not exist in this build)");
+        cx.info->nontrivial = changed && d.size() < SZ && BOOL_OK;
+        cx.info->sig = mix2(mix2(0xb001, ck), ((uint64_t)form << 8) | (uint64_t)(d.s[R - 1] * 4 + (d.ext[R - 1] % 4)));
+        if (cx.cnt && BOOL_OK) cx.cnt->bump("probe/bool-destination comparison assignment");
+        bool_finish(cx, o, "bool_write", d, cx.info->desc);
+    }
+
     // ---------------------------------------------------------------- K_ELEM_WRITE (C05): A(i,j,..) op= v with negative indices
     template <size_t... I> T &elem(Par &a, const int *ix, std_ext::index_sequence<I...>) { return a(ix[I]...); }
     void elem_write(const Step &st, StepCtx &cx) {
@@ -409,8 +475,10 @@ template <class T, size_t... D> struct Uni : UniverseBase {
 
     // ---------------------------------------------------------------- K_DYN_ALIAS (C18)
     void dyn_alias(const Step &st, StepCtx &cx) {
-#if !VIEWSIM_MAP_PARENT
         int op = (int)(st.a[A_OP] % 5); uint32_t fk = st.a[A_RHS] % 5; bool coincident = (st.a[A_FORM] % 4) == 0;       // fk 4: c - src (scalar on the left)
+        // map parents (rank >= 3 only): view-to-view copy assignment of map views and rank-1/2 noalias() do not compile on the pinned tree
+        if (VIEWSIM_MAP_PARENT) { if (op == 4) op = 1 + (int)(st.a[A_VAL] % 3); if (fk == 0) fk = 1 + st.a[A_VAL] % 4; }
+        static constexpr bool DYN_ALIAS_OK = !VIEWSIM_MAP_PARENT || R >= 3;
         normalise(cx.si, op, true);
         Sel<R> d; decode_sel(st, A_D0, 9, d, (st.a[A_FORM] / 4) % 4 != 0);
         seq q[4] = {seq(0, 1), seq(0, 1), seq(0, 1), seq(0, 1)}; int fixi[4] = {0, 0, 0, 0};
@@ -426,25 +494,29 @@ template <class T, size_t... D> struct Uni : UniverseBase {
             switch (fk) { case 0: return x; case 1: return (T)(x + cst); case 2: return (T)((T)2 * x - cst); case 4: return (T)(cst - x); default: return (T)(x + src[s2.at(dims, qi)]); }
         };
         bool hazard = alias_model(op, d, rhs, rhs);
-        Ten &a = *A;
-        Outcome o = window([&] {
+        Par &par = *A;
+        Outcome o = window([&] { Gate<DYN_ALIAS_OK>::run([&](auto &a) {
             if (fk == 4) { if (coincident) do_assign(op, MkView<R>::mk(a, q, fixi, 0), cst - MkView<R>::mk(a, q1, fixi, 0)); else do_assign(op, MkView<R>::mk(a, q, fixi, 0).noalias(), cst - MkView<R>::mk(a, q1, fixi, 0)); }
             else if (coincident) {
                 switch (fk) {
+#if !VIEWSIM_MAP_PARENT
                 case 0: do_assign(op, MkView<R>::mk(a, q, fixi, 0), MkView<R>::mk(a, q1, fixi, 0)); break;
+#endif
                 case 1: do_assign(op, MkView<R>::mk(a, q, fixi, 0), MkView<R>::mk(a, q1, fixi, 0) + cst); break;
                 case 2: do_assign(op, MkView<R>::mk(a, q, fixi, 0), (T)2 * MkView<R>::mk(a, q1, fixi, 0) - cst); break;
                 default: do_assign(op, MkView<R>::mk(a, q, fixi, 0), MkView<R>::mk(a, q1, fixi, 0) + MkView<R>::mk(a, q2, fixi, 0)); break;
                 }
             } else {
                 switch (fk) {
+#if !VIEWSIM_MAP_PARENT
                 case 0: do_assign(op, MkView<R>::mk(a, q, fixi, 0).noalias(), MkView<R>::mk(a, q1, fixi, 0)); break;
+#endif
                 case 1: do_assign(op, MkView<R>::mk(a, q, fixi, 0).noalias(), MkView<R>::mk(a, q1, fixi, 0) + cst); break;
                 case 2: do_assign(op, MkView<R>::mk(a, q, fixi, 0).noalias(), (T)2 * MkView<R>::mk(a, q1, fixi, 0) - cst); break;
                 default: do_assign(op, MkView<R>::mk(a, q, fixi, 0).noalias(), MkView<R>::mk(a, q1, fixi, 0) + MkView<R>::mk(a, q2, fixi, 0)); break;
                 }
             }
-        }, failalloc);
+        }, par); }, failalloc);
         char sd[80], ss[80]; describe_sel(sd, sizeof sd, d); describe_sel(ss, sizeof ss, s1);
         snprintf(cx.info->desc, sizeof cx.info->desc, "A(%s)%s %s f%u(A(%s))", sd, coincident ? "" : ".noalias()", OPNAME[op], fk, ss);
         cx.info->nontrivial = hazard;
@@ -452,7 +524,6 @@ template <class T, size_t... D> struct Uni : UniverseBase {
         cx.info->sig = mix2(mix2(((uint64_t)op << 8) | fk, coincident ? 1 : 0), ((uint64_t)(uint32_t)(shift + 64) << 16) | (uint64_t)(d.s[R - 1] * 16 + s1.s[R - 1] * 4) | ((uint64_t)(d.ext[R - 1] % 16) << 32));
         if (cx.cnt) cx.cnt->bump(std::string("probe/dyn-view overlap ") + overlap_class(coincident, hazard));
         finish(cx, o, "dyn_alias", &d, cx.info->desc);
-#endif
     }
 
     // ---------------------------------------------------------------- long-lived handles (C18): the sticky flag lives across steps
